@@ -72,6 +72,12 @@ theorem hashed_args_cover (r : RReq) (a : RArg) (ha : a ∈ r.args)
   simp only [List.mem_filter]
   exact ⟨⟨ha, by simp [h1]⟩, by simp [h2]⟩
 
+/-- `externs_order_independent`: the sorted extern list (and with it the order in which the extern digests enter the key) does not
+    depend on the order of the `--extern` arguments — as lists of path components (`a//b` and `a/b` are one file) -/
+theorem externs_order_independent (l1 l2 : List RArgsM.Bytes) (h : l1.Perm l2) :
+    (l1.mergeSort RArgsM.lePath).map RArgsM.comps = (l2.mergeSort RArgsM.lePath).map RArgsM.comps :=
+  RArgsM.sorted_externs_perm_eq l1 l2 h
+
 /-- sorting the externs only reorders them (nothing lost or invented) -/
 theorem rust_externs_perm (l : List RArgsM.Bytes) : (l.mergeSort RArgsM.lePath).Perm l := RArgsM.sorted_externs_perm l
 
